@@ -327,17 +327,71 @@ func init() {
 		},
 
 		// ---- sync
-		"(*sync.Mutex).Lock":      z,
-		"(*sync.Mutex).Unlock":    z,
-		"(*sync.Mutex).TryLock":   func(in *Interp, c *frame, fn *ssa.Function, a []Value) Value { return in.tt.Bool(true) },
-		"(*sync.RWMutex).Lock":    z,
-		"(*sync.RWMutex).Unlock":  z,
-		"(*sync.RWMutex).RLock":   z,
-		"(*sync.RWMutex).RUnlock": z,
-		"(*sync.RWMutex).TryLock": func(in *Interp, c *frame, fn *ssa.Function, a []Value) Value { return in.tt.Bool(true) },
-		"(*sync.WaitGroup).Add":   z,
-		"(*sync.WaitGroup).Done":  z,
-		"(*sync.WaitGroup).Wait":  z,
+		// without -sched locks and wait groups are no-ops (one goroutine); with it they are scheduling points
+		"(*sync.Mutex).Lock": func(in *Interp, c *frame, fn *ssa.Function, a []Value) Value {
+			in.lockAcquire(a[0].(*Value), true, "Mutex.Lock")
+			return nil
+		},
+		"(*sync.Mutex).Unlock": func(in *Interp, c *frame, fn *ssa.Function, a []Value) Value {
+			in.lockRelease(a[0].(*Value), true)
+			return nil
+		},
+		"(*sync.Mutex).TryLock": func(in *Interp, c *frame, fn *ssa.Function, a []Value) Value {
+			return in.tt.Bool(in.lockTry(a[0].(*Value), true))
+		},
+		"(*sync.RWMutex).Lock": func(in *Interp, c *frame, fn *ssa.Function, a []Value) Value {
+			in.lockAcquire(a[0].(*Value), true, "RWMutex.Lock")
+			return nil
+		},
+		"(*sync.RWMutex).Unlock": func(in *Interp, c *frame, fn *ssa.Function, a []Value) Value {
+			in.lockRelease(a[0].(*Value), true)
+			return nil
+		},
+		"(*sync.RWMutex).RLock": func(in *Interp, c *frame, fn *ssa.Function, a []Value) Value {
+			in.lockAcquire(a[0].(*Value), false, "RWMutex.RLock")
+			return nil
+		},
+		"(*sync.RWMutex).RUnlock": func(in *Interp, c *frame, fn *ssa.Function, a []Value) Value {
+			in.lockRelease(a[0].(*Value), false)
+			return nil
+		},
+		"(*sync.RWMutex).TryLock": func(in *Interp, c *frame, fn *ssa.Function, a []Value) Value {
+			return in.tt.Bool(in.lockTry(a[0].(*Value), true))
+		},
+		"(*sync.WaitGroup).Add": func(in *Interp, c *frame, fn *ssa.Function, a []Value) Value {
+			if in.sc.on {
+				in.wgAdd(a[0].(*Value), in.concInt(a[1]))
+			}
+			return nil
+		},
+		"(*sync.WaitGroup).Done": func(in *Interp, c *frame, fn *ssa.Function, a []Value) Value {
+			in.wgAdd(a[0].(*Value), -1)
+			return nil
+		},
+		"(*sync.WaitGroup).Wait": func(in *Interp, c *frame, fn *ssa.Function, a []Value) Value {
+			in.wgWait(a[0].(*Value))
+			return nil
+		},
+		"runtime.Gosched": func(in *Interp, c *frame, fn *ssa.Function, a []Value) Value {
+			in.yield(nil, "Gosched")
+			return nil
+		},
+		rtPkg + ".Sched": func(in *Interp, c *frame, fn *ssa.Function, a []Value) Value {
+			in.yield(nil, "Sched")
+			return nil
+		},
+		rtPkg + ".Atomic": func(in *Interp, c *frame, fn *ssa.Function, a []Value) Value {
+			// one step of harness bookkeeping: scheduling is switched off while it runs
+			on := in.sc.on
+			in.sc.on = false
+			defer func() { in.sc.on = on }()
+			in.call(c, nil, a[0], nil)
+			return nil
+		},
+		rtPkg + ".Settle": func(in *Interp, c *frame, fn *ssa.Function, a []Value) Value {
+			in.settle()
+			return nil
+		},
 		"(*sync.WaitGroup).Go": func(in *Interp, c *frame, fn *ssa.Function, a []Value) Value {
 			return in.call(c, nil, a[1], nil)
 		},
@@ -382,12 +436,11 @@ func init() {
 		},
 		"(*sync.Cond).Signal":    z,
 		"(*sync.Cond).Broadcast": z,
-		"runtime.Gosched":        z,
 		"runtime.KeepAlive":      z,
 		"runtime.SetFinalizer":   z,
 		"runtime.GC":             z,
 		"runtime/debug.ReadBuildInfo": func(in *Interp, c *frame, fn *ssa.Function, a []Value) Value { return Tuple{(*Value)(nil), in.tt.Bool(false)} },
-		"time.Sleep":             z,
+		"time.Sleep": func(in *Interp, c *frame, fn *ssa.Function, a []Value) Value { in.yield(nil, "time.Sleep"); return nil },
 		"os.Exit": func(in *Interp, c *frame, fn *ssa.Function, a []Value) Value {
 			panic(pathEnd{kind: "fatal", msg: "os.Exit"})
 		},
